@@ -29,13 +29,15 @@
 #include <pthread.h>
 #include "env/fd.h"
 
-/* The ghosts are grouped in three objects so that an assigns clause names few targets (DFCC's cost grows with the number
- * of targets of caller and callee):  xv_epg -- interest list + record of epoll_ctl/epoll_create1;  xv_evg -- eventfd flags +
+/* The ghosts are grouped in three objects so that an assigns clause names few targets:  xv_epg -- interest list + record of epoll_ctl/epoll_create1;  xv_evg -- eventfd flags +
  * record of eventfd();  xv_lkg -- lock state.  The field macros below keep the individual names. */
 struct xv_ep_entry { _Bool in; uint32_t mask; };
 struct xv_ep_ghost { struct xv_ep_entry e[XV_NFD]; int epfd; int epcreate_calls; int epctl_calls, epctl_op, epctl_fd, epctl_ret, epctl_errno; };
 struct xv_ev_ghost { _Bool readable[XV_NFD]; int eventfd_calls; unsigned eventfd_init; int eventfd_flags; };
 struct xv_lk_ghost { _Bool held; int acqs, rels; const void *obj; };
+/* ghost knob (never assigned by a stub; arbitrary after xv_epoll_havoc): a bounded stand-in that sets it assumes that eventfd(2)
+ * finds a free slot and does not fail.  No job counted as proof sets it. */
+_Bool xv_eventfd_ok;
 struct xv_ep_ghost xv_epg;
 struct xv_ev_ghost xv_evg;
 struct xv_lk_ghost xv_lkg;
@@ -62,7 +64,7 @@ struct xv_lk_ghost nondet_xv_lk_ghost(void);
 /* every harness using this file calls xv_fd_havoc(); xv_epoll_havoc(); right after xv_ghost_havoc() */
 static inline void xv_epoll_havoc(void)
 {
-    xv_epg = nondet_xv_ep_ghost(); xv_evg = nondet_xv_ev_ghost(); xv_lkg = nondet_xv_lk_ghost();
+    xv_epg = nondet_xv_ep_ghost(); xv_evg = nondet_xv_ev_ghost(); xv_lkg = nondet_xv_lk_ghost(); xv_eventfd_ok = nondet_bool();
 }
 
 #define XV_EP_IN(fd) (XV_FD_OURS(fd) && xv_ep[fd].in)
@@ -136,6 +138,8 @@ int eventfd(unsigned int initval, int flags)
 {
     xv_eventfd_calls++; xv_eventfd_init = initval; xv_eventfd_flags = flags;
     int fd = xv_new_fd((flags & EFD_NONBLOCK) != 0, 0);
+    if (xv_eventfd_ok)
+        __CPROVER_assume(fd >= 0);
     if (fd < 0)
         return -1;
     xv_ep[fd].in = 0;                       /* a new open file description is in no interest list */
